@@ -665,7 +665,6 @@ func ruleNsCarry(c *Ctx) []Obligation {
 			if wrapped == nil {
 				return
 			}
-			_ = fPrefix
 			con := fmt.Sprintf("%s: the entry made to stand for another takes over its namespace stamp", c.FnName(fn))
 			carried := false
 			for _, st := range storesToField(fn, fNS) {
@@ -674,6 +673,40 @@ func ruleNsCarry(c *Ctx) []Obligation {
 				}
 				if _, f, src := loadedField(st.Val); f == fNS && src == wrapped {
 					carried = true
+				}
+			}
+			// … and its prefix and schema node, which say which module's names the entry is looked up with: an
+			// entry whose Node belongs to one module and whose Prefix names another is resolved in the wrong module
+			// by every lookup that trusts the prefix
+			conP := fmt.Sprintf("%s: the entry made to stand for another takes its prefix from where it takes its node", c.FnName(fn))
+			fNode := FieldVar(entry, "Node")
+			var nodeFrom, prefixFrom ssa.Value
+			for _, st := range storesToField(fn, fNode) {
+				if _, _, base := fieldOf(st.Addr); base == ssa.Value(al) {
+					// copied, or built from the parts of another entry's node (a Case made of the wrapped node's
+					// name, parent and statement)
+					operandClosure(st.Val, func(y ssa.Value) {
+						if _, f, src := loadedField(y); f == fNode && src != nil && nodeFrom == nil {
+							nodeFrom = src
+						}
+					})
+				}
+			}
+			for _, st := range storesToField(fn, fPrefix) {
+				if _, _, base := fieldOf(st.Addr); base == ssa.Value(al) {
+					if _, f, src := loadedField(st.Val); f == fPrefix {
+						prefixFrom = src
+					}
+				}
+			}
+			if nodeFrom != nil {
+				switch {
+				case prefixFrom == nil:
+					obs = append(obs, bad(R, conP, c.InstrPos(al), "the node is taken over from another entry, the prefix is not"))
+				case sameObject(nodeFrom, prefixFrom):
+					obs = append(obs, ok(R, conP, c.InstrPos(al), "Node and Prefix are copied from the same entry"))
+				default:
+					obs = append(obs, bad(R, conP, c.InstrPos(al), "Node is copied from one entry and Prefix from another: for a node that another module augmented in, the stand-in carries that module's schema node under the augmented module's prefix, and a lookup that resolves the entry's own prefix through its node ends in the wrong module"))
 				}
 			}
 			if carried {
